@@ -66,6 +66,10 @@ func (ctx *Ctx) GenVC(fc *FuncContract) (res *FuncResult) {
 		fr.vals[p] = t
 		vc.paramTerms = append(vc.paramTerms, t)
 		entry.assume(vc.rangeAssumption(t, p.Type(), entry.alloc))
+		if _, isSl := p.Type().Underlying().(*types.Slice); isSl {
+			entry.assume(Implies(Neq(Rid(SBase(t)), IntLit(0)), Lt(App(SInt, "otype", Rid(SBase(t))), IntLit(0))))
+			vc.assume("slice parameters are backed by array allocations of their own (not by part of a struct object)")
+		}
 		vc.inputs = append(vc.inputs, WatchTerm{p.Name(), t})
 	}
 	// pre-register the heap sorts of every type the function mentions
@@ -158,7 +162,10 @@ func (ctx *Ctx) GenVC(fc *FuncContract) (res *FuncResult) {
 			res.Err = fmt.Sprintf("ensures %s does not resolve: %v", en.Label, err)
 			return res
 		}
-		vc.addObl(&Obligation{Name: "ensures:" + en.Label, Kind: "ensures", Reach: exit.reach, Cond: t, Taint: exit.taint,
+		// instances of callee contracts used as spec functions are hypotheses of this obligation
+		reach := And(append([]Term{exit.reach}, penv.assumes...)...)
+		penv.assumes = nil
+		vc.addObl(&Obligation{Name: "ensures:" + en.Label, Kind: "ensures", Reach: reach, Cond: t, Taint: exit.taint,
 			Pos: ctx.prog.Fset.Position(fn.Pos()), Descr: en.Src})
 	}
 	// frame: nothing allocated before the call changes outside the modifies clause
@@ -277,7 +284,7 @@ func (ctx *Ctx) frameObligation(vc *VC, fr *Frame, fc *FuncContract, exit *State
 	// ghost variables not listed under assigns keep their value
 	assigned := map[string]bool{}
 	for _, g := range fc.Assigns {
-		assigned[fc.PkgPath+"::"+g] = true
+		assigned[ctx.ghostKey(fc.PkgPath, g)] = true
 	}
 	for _, gs := range fc.Sets {
 		assigned[fc.PkgPath+"::"+gs.Var] = true
